@@ -338,6 +338,11 @@ def typesOf (c : Ctx) (vs : IVs) : List Ty := vs.toList.map (dynType c)
 
 def hashableStruct : Ty := .prim "HashableStruct"
 
+/-- every element's run-time type is a subtype of the element type (`interpreter.IsSubType`) -/
+def elemsSub (c : Ctx) (e : Ty) : IVs → Bool
+  | .nil => true
+  | .cons v r => c.sub (dynType c v) e && elemsSub c e r
+
 mutual
 /-- `valueImporter.importValue(value, expectedType)`; `none` is Go's nil expected type -/
 def importValue (c : Ctx) : XV → Option Ty → Outcome IV
@@ -357,8 +362,10 @@ def importValue (c : Ctx) : XV → Option Ty → Outcome IV
     let elemTy := match exp with | some (.varArr e) => some e | some (.constArr e _) => some e | _ => none
     (importList c vs elemTy).bind fun ivs =>
       match exp with
-      | some (.varArr e) => .ok (.arr (.varArr e) ivs)
-      | some (.constArr e n) => .ok (.arr (.constArr e n) ivs)
+      -- the array takes the expected type as its static type; the elements must belong to it
+      -- (the transfer of the array into a parent container relies on the element type)
+      | some (.varArr e) => if elemsSub c e ivs then .ok (.arr (.varArr e) ivs) else .user .malformed
+      | some (.constArr e n) => if elemsSub c e ivs then .ok (.arr (.constArr e n) ivs) else .user .malformed
       | _ =>
         match c.lcs (typesOf c ivs) with
         | some e => .ok (.arr (.varArr e) ivs)
